@@ -12,6 +12,11 @@ SPEC = os.path.join(VERIF, "spec")
 WORK = os.path.join(VERIF, ".work")
 EVID = os.path.join(VERIF, "evidence")
 REPLAYS = os.path.join(VERIF, "replays")
+if os.path.realpath(REPO) != "/repo":
+    # a run against a scratch copy of the repository (mutation testing): keep its scratch, evidence and replay
+    # files apart from those of the registered checks, so concurrent runs do not disturb each other
+    _alt = os.path.join(WORK, "alt-" + hashlib.sha1(os.path.realpath(REPO).encode()).hexdigest()[:8])
+    WORK, EVID, REPLAYS = os.path.join(_alt, "work"), os.path.join(_alt, "evidence"), os.path.join(_alt, "replays")
 JAR = "/opt/veriftools/tla/tla2tools.jar:/opt/veriftools/tla/CommunityModules-deps.jar"
 PY = "/venv/bin/python"
 NCPU = min(16, os.cpu_count() or 4)
